@@ -748,6 +748,21 @@ func isHelperContextType(t reflect.Type) bool {
 	return t.ConvertibleTo(reflect.TypeOf(HelperContext{})) || t.Implements(reflect.TypeOf((*hctx.HelperContext)(nil)).Elem())
 }
 
+// helperContextArg returns what a helper parameter of type t that takes the
+// HelperContext (see isHelperContextType) is given: the context itself, or the
+// context converted to t when t is a named type defined as HelperContext. A
+// type that merely implements the interface cannot be supplied: ok is false.
+func (c *compiler) helperContextArg(t reflect.Type, block *ast.BlockStatement) (reflect.Value, bool) {
+	hv := reflect.ValueOf(HelperContext{Context: c.ctx, compiler: c, block: block})
+	if hv.Type().AssignableTo(t) {
+		return hv, true
+	}
+	if hv.Type().ConvertibleTo(t) {
+		return hv.Convert(t), true
+	}
+	return reflect.Value{}, false
+}
+
 func (c *compiler) evalCallExpression(node *ast.CallExpression) (interface{}, error) {
 	var rv reflect.Value
 
@@ -831,9 +846,9 @@ func (c *compiler) evalCallExpression(node *ast.CallExpression) (interface{}, er
 			expectedT := rt.In(pos)
 			if v != nil {
 				ar = reflect.ValueOf(v)
-			} else if isHelperContextType(expectedT) {
+			} else if hv, ok := c.helperContextArg(expectedT, node.Block); ok && isHelperContextType(expectedT) {
 				// an explicit nil for the helper context means "the usual one", as when it is omitted
-				ar = reflect.ValueOf(HelperContext{Context: c.ctx, compiler: c, block: node.Block})
+				ar = hv
 			} else {
 				ar = reflect.New(expectedT).Elem()
 			}
@@ -847,15 +862,11 @@ func (c *compiler) evalCallExpression(node *ast.CallExpression) (interface{}, er
 		}
 
 		hc := func(arg reflect.Type) {
-			hhc := reflect.TypeOf((*hctx.HelperContext)(nil)).Elem()
-			if arg.ConvertibleTo(reflect.TypeOf(HelperContext{})) || arg.Implements(hhc) {
-				hargs := HelperContext{
-					Context:  c.ctx,
-					compiler: c,
-					block:    node.Block,
+			if isHelperContextType(arg) {
+				if hv, ok := c.helperContextArg(arg, node.Block); ok {
+					args = append(args, hv)
+					return
 				}
-				args = append(args, reflect.ValueOf(hargs))
-				return
 			}
 
 			if arg.ConvertibleTo(reflect.TypeOf(map[string]interface{}{})) {
@@ -913,6 +924,9 @@ func (c *compiler) evalCallExpression(node *ast.CallExpression) (interface{}, er
 			expectedT := rt.In(pos)
 			if v != nil {
 				ar = reflect.ValueOf(v)
+			} else if hv, ok := c.helperContextArg(expectedT, node.Block); ok && isHelperContextType(expectedT) {
+				// as in a call without variadic parameters
+				ar = hv
 			} else {
 				ar = reflect.New(expectedT).Elem()
 			}
